@@ -59,7 +59,8 @@ pub mod trusted {
         ensures #[trigger] obeys_key_model::<BusListenerFilter>();
 }
 
-broadcast use {trusted::axiom_filter_key_model, vstd::std_specs::hash::group_hash_axioms};
+// (the including unit states its one module-level `broadcast use`, which must contain trusted::axiom_filter_key_model and
+// vstd::std_specs::hash::group_hash_axioms)
 
 //@include _shared/std_option_specs.rs
 
